@@ -353,6 +353,11 @@ Definition to_value (r : nat) (g : gval) : tv_result :=
   | _ => TVOk g
   end.
 
-(* I for values passed directly as arguments of another runtime's Callable (func.go: the arguments are pushed on
-   the callee's stack as they are, no toValue): accepted whatever they are — open finding C16-N2 *)
-Definition call_arg_impl (r : nat) (g : gval) : tv_result := TVOk g.
+(* values passed directly as this / newTarget / arguments of another runtime's Callable or Constructor wrapper, or to
+   Runtime.New (runtime.go checkOwnValues, fix ecabeef of finding C16-N2): an Object of another runtime is refused
+   with the same TypeError as toValue; everything else is pushed as it is *)
+Definition call_arg_impl (r : nat) (g : gval) : tv_result :=
+  match g with
+  | GObject rt => if Nat.eqb rt r then TVOk g else TVTypeError
+  | _ => TVOk g
+  end.
